@@ -7,7 +7,7 @@ use crate::refsem::{self, Bind, Resolution};
 use crate::textmodel::{LineTable, Pos};
 use serde_json::Value;
 
-pub const PREFIX: &str = "/* \u{e9}\u{1F609} */ ";
+pub const PREFIX: &str = "/* \u{e9}\u{1F609}\u{2028} */ ";
 
 /// A program laid out as files, with its identifier occurrences in byte offsets of those
 /// files and the reference binding relation.
